@@ -141,10 +141,122 @@ func Gen(r *rand.Rand, o GenOpts, id string) *Program {
 		p.Yes = r.Float64() < o.PYes
 		Normalize(p)
 		if sz := Size(p); sz >= 2 && sz <= o.MaxProbes {
+			if r.Float64() < 0.2 {
+				Includize(r, p, o.MaxProbes)
+			}
 			return p
 		}
 		if attempt > 200 {
 			return p
+		}
+	}
+}
+
+// Includize moves some non-root tasks into an included Taskfile (namespace n) and, when they are few, includes
+// that file a second time (namespace m): n:x and m:x are different tasks with the same definition.
+func Includize(r *rand.Rand, p *Program, maxProbes int) {
+	isRoot := map[string]bool{}
+	for _, rt := range p.Roots {
+		isRoot[rt.Task] = true
+	}
+	var sel []string
+	for _, t := range p.Order {
+		if !isRoot[t] && r.Float64() < 0.5 {
+			sel = append(sel, t)
+		}
+	}
+	if len(sel) == 0 {
+		return
+	}
+	ren := map[string]string{}
+	for _, t := range sel {
+		ren[t] = "n:" + t
+	}
+	renameTasks(p, ren)
+	p.NS = []string{"n"}
+	leafOnce := true // a shared once definition is only mirrored when it is a leaf (its callees would print either namespace)
+	for _, t := range sel {
+		tk := p.Tasks["n:"+t]
+		if tk.run() == "once" {
+			if len(tk.Deps) > 0 {
+				leafOnce = false
+			}
+			for _, c := range tk.Cmds {
+				if c.CS != nil {
+					leafOnce = false
+				}
+			}
+		}
+	}
+	if len(sel) <= 2 && leafOnce && r.Float64() < 0.5 {
+		// the mirror copy, called from the first root
+		mir := map[string]string{}
+		for _, t := range sel {
+			mir["n:"+t] = "m:" + t
+		}
+		for _, t := range sel {
+			c := cloneTask(p.Tasks["n:"+t])
+			renameRefs(c, mir)
+			p.Tasks["m:"+t] = c
+			p.Order = append(p.Order, "m:"+t)
+		}
+		root := p.Tasks[p.Roots[0].Task]
+		root.Cmds = append(root.Cmds, Cmd{K: "call", CS: &CallSite{Task: "m:" + sel[0]}})
+		p.NS = []string{"n", "m"}
+		if Size(p) > maxProbes {
+			// too large: undo the mirror
+			root.Cmds = root.Cmds[:len(root.Cmds)-1]
+			for _, t := range sel {
+				delete(p.Tasks, "m:"+t)
+			}
+			p.Order = p.Order[:len(p.Order)-len(sel)]
+			p.NS = []string{"n"}
+		}
+	}
+}
+
+func cloneTask(t *Task) *Task {
+	c := *t
+	c.Deps = append([]CallSite(nil), t.Deps...)
+	c.Cmds = append([]Cmd(nil), t.Cmds...)
+	for i := range c.Cmds {
+		if c.Cmds[i].CS != nil {
+			cs := *c.Cmds[i].CS
+			c.Cmds[i].CS = &cs
+		}
+	}
+	return &c
+}
+
+func renameRefs(t *Task, ren map[string]string) {
+	for i := range t.Deps {
+		if n, ok := ren[t.Deps[i].Task]; ok {
+			t.Deps[i].Task = n
+		}
+	}
+	for i := range t.Cmds {
+		if cs := t.Cmds[i].CS; cs != nil {
+			if n, ok := ren[cs.Task]; ok {
+				cs.Task = n
+			}
+		}
+	}
+}
+
+func renameTasks(p *Program, ren map[string]string) {
+	for i, t := range p.Order {
+		if n, ok := ren[t]; ok {
+			p.Order[i] = n
+			p.Tasks[n] = p.Tasks[t]
+			delete(p.Tasks, t)
+		}
+	}
+	for _, t := range p.Tasks {
+		renameRefs(t, ren)
+	}
+	for i := range p.Roots {
+		if n, ok := ren[p.Roots[i].Task]; ok {
+			p.Roots[i].Task = n
 		}
 	}
 }
@@ -258,8 +370,14 @@ func IsCyclic(p *Program) bool {
 // Features lists what a program exercises (for the evidence file).
 func Features(p *Program) []string {
 	f := map[string]bool{}
+	if len(p.NS) > 0 {
+		f[fmt.Sprintf("included-x%d", len(p.NS))] = true
+	}
 	for _, name := range p.Order {
 		t := p.Tasks[name]
+		if t.Label {
+			f["label"] = true
+		}
 		if len(t.Deps) > 0 {
 			f["deps"] = true
 		}
@@ -504,6 +622,39 @@ func Core() []*Program {
 		"b": {Guard: "enum", Cmds: []Cmd{sh(0)}},
 	}))
 	add(mk("guard-enum-empty-root", 0, []string{"a"}, map[string]*Task{"a": {Guard: "enum", Cmds: []Cmd{sh(0)}}}))
+	// tasks of an included file: the same file under two namespaces gives two tasks, each deduplicated on its own;
+	// references to the root file from the included one; failures and when_changed through the namespace
+	inc := func(pr *Program, ns ...string) *Program { pr.NS = ns; return pr }
+	add(inc(mk("inc-once-two-ns", 0, []string{"a", "n:d", "m:d"}, map[string]*Task{
+		"a":   {Deps: []CallSite{dep("n:d"), dep("m:d"), dep("n:d")}, Cmds: []Cmd{call("m:d", ""), sh(0)}},
+		"n:d": {Run: "once", Cmds: []Cmd{sh(0)}},
+		"m:d": {Run: "once", Cmds: []Cmd{sh(0)}},
+	}), "n", "m"))
+	add(inc(mk("inc-once-vars", 0, []string{"a", "n:d"}, map[string]*Task{
+		"a":   {Cmds: []Cmd{call("n:d", "one"), call("n:d", "two"), sh(0)}},
+		"n:d": {Run: "once", Label: true, Cmds: []Cmd{sh(0)}},
+	}), "n"))
+	add(inc(mk("inc-root-ref", 0, []string{"a", "r", "n:x", "n:y"}, map[string]*Task{
+		"a":   {Deps: []CallSite{dep("n:x"), dep("r")}, Cmds: []Cmd{sh(0)}},
+		"r":   {Run: "once", Cmds: []Cmd{sh(0)}},
+		"n:x": {Deps: []CallSite{dep("r"), dep("n:y")}, Cmds: []Cmd{call("n:y", "one"), sh(0)}},
+		"n:y": {Run: "when_changed", Cmds: []Cmd{sh(0)}},
+	}), "n"))
+	add(inc(mk("inc-fail-two-ns", 2, []string{"a", "n:x", "n:y", "m:x", "m:y"}, map[string]*Task{
+		"a":   {Deps: []CallSite{dep("n:x")}, Cmds: []Cmd{call("m:x", ""), sh(0)}},
+		"n:x": {Deps: []CallSite{dep("n:y")}, Cmds: []Cmd{{K: "dsh"}, sh(0)}},
+		"n:y": {Run: "once", Cmds: []Cmd{sh(0)}},
+		"m:x": {Deps: []CallSite{dep("m:y")}, Cmds: []Cmd{{K: "dsh"}, sh(0)}},
+		"m:y": {Run: "once", Cmds: []Cmd{sh(0)}},
+	}), "n", "m"))
+	add(inc(mk("inc-when-changed", 0, []string{"a", "n:w"}, map[string]*Task{
+		"a":   {Deps: []CallSite{depv("n:w", "one"), depv("n:w", "one"), depv("n:w", "two")}, Cmds: []Cmd{call("n:w", "one"), sh(0)}},
+		"n:w": {Run: "when_changed", Cmds: []Cmd{sh(0)}},
+	}), "n"))
+	add(inc(mk("inc-dep-fails", 0, []string{"a", "n:x"}, map[string]*Task{
+		"a":   {Deps: []CallSite{dep("n:x")}, Cmds: []Cmd{sh(0)}},
+		"n:x": {Cmds: []Cmd{sh(3), sh(0)}},
+	}), "n"))
 	// two roots, sequential and parallel
 	for _, par := range []bool{false, true} {
 		p := mk(fmt.Sprintf("two-roots-par%v", par), 2, []string{"a", "b", "c"}, map[string]*Task{
